@@ -136,12 +136,12 @@ func (h *EntryHandler) Handle(ctx context.Context, q *dns.Msg, serverMeta server
 
 	if serverMeta.FromUDP {
 		udpSize := getValidUDPSize(qCtx.ClientOpt())
-		resp.Truncate(udpSize)
+		truncateMsg(resp, udpSize)
 	} else {
 		// Stream transports carry at most 65535 bytes. Plugins hand over
 		// unpacked (uncompressed) messages, turn on compression (and, in the
 		// worst case, truncation) if the msg is too big without it.
-		resp.Truncate(dns.MaxMsgSize)
+		truncateMsg(resp, dns.MaxMsgSize)
 	}
 
 	payload, err := packMsgPayload(resp)
@@ -164,6 +164,24 @@ func (h *EntryHandler) Handle(ctx context.Context, q *dns.Msg, serverMeta server
 		}
 	}
 	return payload
+}
+
+// truncateMsg makes m fit size bytes, see dns.Msg.Truncate.
+// Truncate trusts dns.Msg.Len(), which is an upper bound only: text that
+// needs escaping (e.g. non-ascii bytes in a TXT record) is counted in its
+// presentation form, up to four bytes for one byte on the wire. Records
+// must not be dropped from a msg that fits, so a msg that looks too big is
+// measured for real before it is cut.
+func truncateMsg(m *dns.Msg, size int) {
+	compress := m.Compress
+	m.Compress = true
+	if m.Len() > size {
+		if wire, err := m.Pack(); err == nil && len(wire) <= size {
+			return // It fits (compressed).
+		}
+	}
+	m.Compress = compress
+	m.Truncate(size)
 }
 
 // opt can be nil.
